@@ -1294,3 +1294,118 @@ def make_L11():
 
 
 L11 = make_L11()
+
+
+# ---------------------------------------------------------------- C15/C20: a file's result does not depend on the files processed before it (real apply_rules, shared config object)
+import shutil
+import tempfile
+
+import vsg.apply_rules as AR_real
+
+
+class SeqCLA(CLA):
+    def __init__(self, **k):
+        super().__init__()
+        self.fix = False
+        self.backup = False
+        self.fix_phase = 7
+        self.skip_phase = []
+        self.all_phases = False
+        self.output_format = "vsg"
+        self.json = "x.json"
+        self.quality_report = None
+        self.jobs = 1
+        for a, b in k.items():
+            setattr(self, a, b)
+
+
+def run_sequence(names, texts, fix, fix_only, all_phases):
+    """process the files in order in this process, the way __main__ does with --jobs 1: one config object for the whole run"""
+    d = tempfile.mkdtemp(prefix="seq", dir=os.path.join(os.path.dirname(CORPUS), ".scratch"))
+    try:
+        paths = []
+        for n, t in zip(names, texts):
+            pth = os.path.join(d, n)
+            with open(pth, "w", encoding="utf-8") as f:
+                f.write("\n".join(t) + "\n")
+            paths.append(pth)
+        cla = SeqCLA(fix=fix, all_phases=all_phases)
+        cla.filename = list(paths)
+        conf = config.New(cla)
+        conf.dFixOnly = fix_only
+        out = {}
+        for i, pth in enumerate(paths):
+            st, tc, dj, so, se, stop = AR_real.apply_rules(cla, conf, (i, pth))
+            out[os.path.basename(pth)] = {
+                "status": bool(st), "stdout": (so or "").replace(d + os.sep, ""), "stderr": (se or "").replace(d + os.sep, ""),
+                "json": [(v["rule"], v["linenumber"], v["solution"]) for v in dj.get("violations", [])],
+                "text": open(pth, encoding="utf-8").read(),
+            }
+        return out
+    finally:
+        shutil.rmtree(d, ignore_errors=True)
+
+
+def sequence(eng, p):
+    a, b = p["a"], p["b"]
+    ta, tb = read_fixture(a), read_fixture(b)
+    fix = eng.bool("fix")
+    ap = eng.bool("all_phases")
+    vb = violations_by_line(b)
+    rules_b = sorted(set(r for rs in vb.values() for r in rs))[:2]
+    fo_mode = ["none", "all_for_rules_of_b", "first_reported_line"][eng.choose("fix_only", 3)] if fix else "none"
+    if fo_mode == "none" or not rules_b:
+        fo = lambda: None
+    elif fo_mode == "all_for_rules_of_b":
+        fo = lambda: {"fix": {"rule": {r: ["all"] for r in rules_b}}}
+    else:
+        line = sorted(k for k, rs in vb.items() if rules_b[0] in rs)[0]
+        fo = lambda: {"fix": {"rule": {rules_b[0]: [line]}}}
+    os.makedirs(os.path.join(os.path.dirname(CORPUS), ".scratch"), exist_ok=True)
+    alone = run_sequence(["b.vhd"], [tb], fix, fo(), ap)["b.vhd"]
+    after = run_sequence(["a.vhd", "b.vhd"], [ta, tb], fix, fo(), ap)["b.vhd"]
+    clauses = []
+    for k in ("status", "stdout", "stderr", "json", "text"):
+        clauses.append(("C15:result_of_file_independent_of_predecessor[%s]" % k, alone[k] == after[k]))
+    if fo_mode != "none":
+        clauses.append(("C20:selection_applies_to_every_file", alone["text"] == after["text"]))
+    return clauses
+
+
+def make_L15b():
+    class L15b(Harness):
+        name = "L15b"
+        prop = "C15"
+        props = ("C15", "C20")
+        parallel_params = True
+        per_clause_findings = False
+        title = "two files through the real config.New + apply_rules in one process (one shared configuration object, as --jobs 1 does): report, JSON entry, exit contribution and fixed text of the second file equal those of processing it alone"
+        functions = ("vsg.apply_rules", "vsg.config", "vsg.rule_list", "vsg.rule", "vsg.vhdlFile")
+        stubs = ("files are written to a scratch directory under /verif/.scratch; no process pool (jobs = 1 path of __main__)",)
+        assumptions = ()
+        bounds = "pairs of corpus fixtures (quick 12, thorough 120) x --fix x --all_phases x --fix_only in {absent, 'all' for two rules that fire on the second file, one reported line} (engine-forked)"
+        outside = "three or more files; real worker pools; --stdin"
+        min_conclusive_share = 0.5
+        exception_props = ("C15", "C19")
+
+        def params(self, tier):
+            seed = int(os.environ.get("VERIF_SEED", "0") or 0) % NSEEDS
+            rnd = random.Random(15500 + seed)
+            n = 12 if tier == "quick" else 120
+            return [{"a": rnd.choice(ALL_FIXTURES), "b": rnd.choice(ALL_FIXTURES), "_limits": {"shard_paths": 20}} for _ in range(n)]
+
+        def run(self, eng, p):
+            return sequence(eng, p)
+
+        def describe(self, values, p):
+            return {"first_file": p["a"], "second_file": p["b"], "fix": values.get("fix"), "all_phases": values.get("all_phases"), "fix_only_mode": values.get("fix_only")}
+
+        def signature(self, values, p, detail):
+            if detail.get("kind") == "exception":
+                return l_signature(values, p, detail)
+            return "vc:" + ",".join(sorted(set(f.split("[")[0] for f in detail.get("failed", []))))
+
+    return register(L15b)
+
+
+L15b = make_L15b()
